@@ -41,11 +41,17 @@ type Input struct {
 	SameSlot  bool   `json:"same_slot"`   // all ingests of the shared series fall into one 10 s slot (one tree)
 	Procs     int    `json:"procs"`
 	Seed      int64  `json:"seed"`
+	// config.Retention = 24 h; all ingests are two hours old, and in the middle of its ingests writer 0 sends one profile
+	// that is two days old: it must be refused, store nothing, and nobody may be blocked by it
+	Retention bool `json:"retention"`
 }
 
 const maxReads = 40
 
-const baseTime = 1600000000 // multiple of 100; slots are baseTime + 10*k
+const defaultBaseTime = 1600000000
+
+// multiple of 1000; slots are baseTime + 10*k. With a retention period configured it is set to two hours ago.
+var baseTime int64 = defaultBaseTime
 
 type ingestRec struct {
 	w, j       int
@@ -89,8 +95,12 @@ func newStorage(in Input) (*storage.Storage, string, error) {
 	if in.Stream == "evict" {
 		thr = 0 // evicts 30% of every cache every 5 ms
 	}
-	st, err := storage.New(&config.Server{StoragePath: dir, CacheEvictThreshold: thr, CacheEvictVolume: 0.3,
-		MaxNodesSerialization: 2048, MaxNodesRender: 2048, BadgerLogLevel: "error"})
+	cfg := &config.Server{StoragePath: dir, CacheEvictThreshold: thr, CacheEvictVolume: 0.3,
+		MaxNodesSerialization: 2048, MaxNodesRender: 2048, BadgerLogLevel: "error"}
+	if in.Retention {
+		cfg.Retention = 24 * time.Hour
+	}
+	st, err := storage.New(cfg)
 	return st, dir, err
 }
 
@@ -147,7 +157,7 @@ func putSpan(st *storage.Storage, key *storage.Key, slot, span int, stacks map[s
 	for s, v := range stacks {
 		t.Insert([]byte(s), v*uint64(span))
 	}
-	from := int64(baseTime + slot*10)
+	from := baseTime + int64(slot)*10
 	return st.Put(&storage.PutInput{StartTime: time.Unix(from, 0), EndTime: time.Unix(from+int64(span)*10, 0), Key: key, Val: t,
 		SpyName: "gospy", SampleRate: 100, Units: "samples", AggregationType: "sum"})
 }
@@ -218,7 +228,7 @@ func runConcurrent(in Input) lib.Result {
 	}
 	defer os.RemoveAll(dir)
 	limit := 40 * time.Second
-	if in.Stream == "delete" {
+	if in.Stream == "delete" || in.Retention {
 		limit = 12 * time.Second
 	}
 	cancel := watchdog(fmt.Sprintf("stream %s (writers %d, readers %d)", in.Stream, in.Writers, in.Readers), limit)
@@ -268,6 +278,7 @@ func runConcurrent(in Input) lib.Result {
 	var putErr atomic.Value
 	reads := make([][]readRec, in.Readers)
 	var deleted int64
+	refusedOK := true
 
 	for w := 0; w < in.Writers; w++ {
 		wg.Add(1)
@@ -278,6 +289,17 @@ func runConcurrent(in Input) lib.Result {
 			for j := 0; j < in.PerWriter; j++ {
 				if err := put(st, own, j, map[string]uint64{"own": 1}); err != nil {
 					putErr.Store(err.Error())
+				}
+				if in.Retention && w == 0 && j == in.PerWriter/2 {
+					// older than the retention period: Put must refuse it (and return)
+					old := tree.New()
+					old.Insert([]byte("uold"), 1)
+					from := time.Now().Add(-48 * time.Hour).Truncate(10 * time.Second)
+					err := st.Put(&storage.PutInput{StartTime: from, EndTime: from.Add(10 * time.Second), Key: shared, Val: old,
+						SpyName: "gospy", SampleRate: 100, Units: "samples", AggregationType: "sum"})
+					if err == nil {
+						refusedOK = false
+					}
 				}
 				rec := ingestRec{w: w, j: j, slot: slotOf(w, j), span: spanOf(w, j)}
 				rec.start = int64(time.Since(t0))
@@ -394,12 +416,12 @@ func runConcurrent(in Input) lib.Result {
 	coq := "{| k_stream := " + lib.Str(in.Stream) + "; k_writers := " + lib.Nat(in.Writers) + "; k_per_writer := " + lib.Nat(in.PerWriter) +
 		"; k_same_slot := " + lib.Bool(in.SameSlot) + "; k_cold := " + lib.Bool(in.ColdStart) +
 		"; k_ingests := " + lib.List(ingTerms) + "; k_reads := " + lib.List(readTerms) + "; k_final := " + coqRead(final) +
-		"; k_own_totals := " + lib.List(ownTotals) + "; k_put_error := " + lib.Bool(perr != "") + " |}"
+		"; k_own_totals := " + lib.List(ownTotals) + "; k_put_error := " + lib.Bool(perr != "" || !refusedOK) + " |}"
 	return lib.Result{
 		Coq:        coq,
 		NonTrivial: overlaps > 0,
 		Feat: map[string]interface{}{"stream": in.Stream, "writers": in.Writers, "readers": in.Readers, "per_writer": in.PerWriter,
-			"labels": in.Labels, "cold_start": in.ColdStart, "same_slot": in.SameSlot, "procs": in.Procs,
+			"labels": in.Labels, "cold_start": in.ColdStart, "same_slot": in.SameSlot, "procs": in.Procs, "retention": in.Retention,
 			"read_overlaps_write": overlaps > 0},
 		Obs: map[string]interface{}{"reads": nreads, "read_write_overlaps": overlaps, "final_common": final.common, "final_uniq": len(final.uniq),
 			"put_error": perr, "deletes": deleted, "wall_ms": time.Since(t0).Milliseconds()},
@@ -844,6 +866,12 @@ func run(in Input) lib.Result {
 	if in.PerWriter < 1 {
 		in.PerWriter = 1
 	}
+	baseTime = defaultBaseTime
+	if in.Retention && in.Stream == "main" {
+		baseTime = (time.Now().Unix() - 7200) / 1000 * 1000
+	} else {
+		in.Retention = false
+	}
 	if strings.HasPrefix(in.Stream, "gate-miss-") {
 		return runGateMiss(in)
 	}
@@ -876,6 +904,7 @@ func gen(r *rand.Rand, idx int, tier string) Input {
 		in.Stream = "tree-readers"
 		return in
 	}
+	in.Retention = lib.Chance(r, 0.5) // only used by the main stream
 	switch idx % 7 {
 	case 4:
 		in.Stream = "evict"
